@@ -153,6 +153,9 @@ func runWG(c *Ctx, s *Sink) {
 					_ = g
 					return false // a nested goroutine's Done is its own
 				}
+				if lit, ok := n.(*ast.FuncLit); ok && lit != fl {
+					return false // a nested literal runs when it is called or started: followed through closures / go statements
+				}
 				if call, ok := n.(*ast.CallExpr); ok {
 					if sel, ok := call.Fun.(*ast.SelectorExpr); ok && sel.Sel.Name == "Done" {
 						if o := rootObj(info, sel.X); o != nil && wgs[o] {
